@@ -111,9 +111,9 @@ pub mod ha2 {
       relation r3(i64);
       relation r4(i64);
       relation r5(i64, i64);
-      relation r6(i64);
-      relation r7(i64, i64);
-      relation r8(i64, i64);
+      relation r6(i64, i64);
+      relation r7(i64);
+      relation r8(i64);
       r2(v2) <-- r0(v0, v1), if let Some(v2) = Some((*v1));
       r3(v1) <-- r2(v0) if ((*v0) < 2), if ((*v0) != 4), r3(v1);
       r2(1) <-- r3(v0);
@@ -123,11 +123,11 @@ pub mod ha2 {
       r3(v0) <-- let v0 = 2;
       r1(v0, v0) <-- if let Some(v0) = None::<i64>;
       r3(v2) <-- r0(v0, v1), for v2 in 2..3, r1(1, v1) if ((*v1) != 5), if let Some(v3) = Some((*v1));
-      r4(v0) <-- r0(v0, v1), agg v21 = max(v20) in r0((*v0), v20);
-      r5(v0, (v21 as i64)) <-- r2(v0), agg v21 = count() in r2(_);
-      r6(v0) <-- r1(v0, v1), agg v21 = max(v20) in r0((*v0), v20);
-      r7(v0, (v21 as i64)) <-- r3(v0), agg v21 = count() in r4(_);
-      r8(v0, v21) <-- r0(v0, v1), agg v21 = min(v20) in r4(v20);
+      r4(v0) <-- r0(v0, v1), agg v21 = max(v20) in r0(1, v20);
+      r5(v0, (v21 as i64)) <-- r2(v0), agg v21 = count() in r2((*v0));
+      r6(v0, v21) <-- r2(v0), r2(v0), agg v21 = min(v20) in r3(v20);
+      r7(v0) <-- r2(v0), agg v21 = count() in r1((*v0), 3);
+      r8(v0) <-- r2(v0), r2(v0), agg v21 = sum(v20) in r4(v20);
    }
    pub struct Inst { p: Prog, pool: Option<ascent::rayon::ThreadPool> }
    pub fn make(pool: Option<usize>) -> Box<dyn Driver> {
@@ -144,9 +144,9 @@ pub mod ha2 {
          3 => { let v: Vec<(i64,)> = parse_rows(rows)?; if append { self.p.r3.extend(v) } else { self.p.r3 = v } },
          4 => { let v: Vec<(i64,)> = parse_rows(rows)?; if append { self.p.r4.extend(v) } else { self.p.r4 = v } },
          5 => { let v: Vec<(i64,i64,)> = parse_rows(rows)?; if append { self.p.r5.extend(v) } else { self.p.r5 = v } },
-         6 => { let v: Vec<(i64,)> = parse_rows(rows)?; if append { self.p.r6.extend(v) } else { self.p.r6 = v } },
-         7 => { let v: Vec<(i64,i64,)> = parse_rows(rows)?; if append { self.p.r7.extend(v) } else { self.p.r7 = v } },
-         8 => { let v: Vec<(i64,i64,)> = parse_rows(rows)?; if append { self.p.r8.extend(v) } else { self.p.r8 = v } },
+         6 => { let v: Vec<(i64,i64,)> = parse_rows(rows)?; if append { self.p.r6.extend(v) } else { self.p.r6 = v } },
+         7 => { let v: Vec<(i64,)> = parse_rows(rows)?; if append { self.p.r7.extend(v) } else { self.p.r7 = v } },
+         8 => { let v: Vec<(i64,)> = parse_rows(rows)?; if append { self.p.r8.extend(v) } else { self.p.r8 = v } },
             _ => return None,
          }
          Some(())
